@@ -40,14 +40,14 @@ def make_driver(rng, pump, gear_ratio, shape=None, nameplate=None):
     return Driver(name=f'{shape} driver', design_power_curve=interpDict(pts))
 
 
-def random_pump(rng, which=None, mode=None, vary=False):
+def random_pump(rng, which=None, mode=None, vary=False, gear=None):
     pumps = example_pumps()
     name = which or rng.choice(sorted(pumps))
     base = pumps[name]
     mode = mode or rng.choice(['torque', 'power', 'curve', 'None'])
     over = {'limited': mode, 'avail_power': base.avail_power * rng.choice([0.5, 0.8, 1.0, 1.0, 1.3])}
     if mode == 'curve':
-        gr = rng.choice([1.0, 2.0, 4.5, 0.8, 2.857])   # step-up gears (ratio < 1) are as legitimate as reduction gears
+        gr = gear or rng.choice([1.0, 2.0, 4.5, 0.8, 2.857])   # step-up gears (ratio < 1) are as legitimate as reduction gears
         over['gear_ratio'] = gr
         over['driver'] = make_driver(rng, base, gr, nameplate=over['avail_power'])
         over['driver_name'] = over['driver'].name
